@@ -213,7 +213,7 @@ pub fn child(seed: u64) -> i32 {
         std::thread::sleep(interval * (2 + (seed % 3) as u32));
     }
     // collect until the expected totals are reached (bounded liveness), then a short quiet period
-    let deadline = Instant::now() + Duration::from_secs(12);
+    let deadline = Instant::now() + Duration::from_secs(25);
     // with sampling on the histogram lives in a reservoir: C10 promises every recorded value only "with sampling
     // off", and a record() that straddles a flush of the reservoir can lose its value (C16's recorded finding
     // push-lost-when-drain-resets-count). Completeness of the histogram is then waited for only this long after
@@ -351,7 +351,7 @@ pub fn child(seed: u64) -> i32 {
             return fail(
                 "e2e-not-delivered-within-deadline",
                 format!(
-                    "after 12 s: counters received {:?} expected {:?}; histogram values {} of {}; last gauge {:?} expected {}",
+                    "after 25 s: counters received {:?} expected {:?}; histogram values {} of {}; last gauge {:?} expected {}",
                     (0..2).map(|i| sums.get(&name(&format!("ci{}", i))).copied().unwrap_or(0)).collect::<Vec<_>>(),
                     total_inc,
                     tags.iter().filter(|t| hist.contains_key(t)).count(),
